@@ -53,10 +53,42 @@ def _is_str_of(node):
     return None
 
 
+_DECORATORS = {'__init__': [], '__hash__': [], '__eq__': [], '__ne__': [], 'from_dataset': ['classmethod'],
+               'from_code': ['classmethod'], 'value': ['property'], 'meaning': ['property'],
+               'scheme_designator': ['property'], 'scheme_version': ['property']}
+
+
+def _check_class_shape(tree, cls):
+    """every method the model speaks about is a plain method / classmethod / property (no caching or other wrapper),
+    and the class has no further member that could take part (an unknown method or class attribute is Unsupported)"""
+    node = [n for n in tree.body if isinstance(n, ast.ClassDef) and n.name == cls]
+    if len(node) != 1:
+        raise Unsupported(f'class {cls} not found')
+    seen = {}
+    for st in node[0].body:
+        if isinstance(st, ast.Expr) and isinstance(st.value, ast.Constant) and isinstance(st.value.value, str):
+            continue
+        if not isinstance(st, ast.FunctionDef):
+            raise Unsupported(f'{cls}: class-level statement outside the recognised shape: {ast.unparse(st)[:60]}')
+        seen[st.name] = [ast.unparse(d) for d in st.decorator_list]
+    for name, decos in seen.items():
+        if name not in _DECORATORS:
+            raise Unsupported(f'{cls}.{name}: a member the model does not know')
+        if decos != _DECORATORS[name]:
+            raise Unsupported(f'{cls}.{name}: decorators {decos} (expected {_DECORATORS[name]})')
+    missing = sorted(set(_DECORATORS) - set(seen))
+    if missing:
+        raise Unsupported(f'{cls}: members not found: {missing}')
+    bases = [ast.unparse(b) for b in node[0].bases]
+    if bases != ['Dataset']:
+        raise Unsupported(f'{cls}: bases {bases}')
+
+
 def build_T17(tree):
     cls = 'CodedConcept'
     out = []
     shas = []
+    _check_class_shape(tree, cls)
 
     # ------------------------------------------------------------ from_dataset
     fd = find_func(tree, f'{cls}.from_dataset')
